@@ -128,7 +128,7 @@ public:
       if (N.empty()) N = FD->getQualifiedNameAsString();
     }
     // internal linkage (static functions, anonymous namespaces): per unit
-    if (!FD->isExternallyVisible()) N += "@" + g_unit;
+    if (!FD->isExternallyVisible() || FD->isMain()) N += "@" + g_unit;
     return N;
   }
   std::string funcName(const FunctionDecl *FD) {
